@@ -189,4 +189,22 @@ def cases():
         q = dict(BASE, sel=[(C("x1", "a"), "c1"), (ISN(C("x2", "a")), "c2"), (ISN(C("x2", "b")), "c3")],
                  frm=("join", jt, t(l, "x1"), t(r, "x2"), on1))
         out.append({"db": {tt: [list(rr) for rr in rows] for tt, rows in PK_DATA.items()}, "q": q, "sql": G.sql_query(q), "pk": True})
+    # 7. views: the derived-table members again with CREATE VIEW, a view joined with itself, a view over a view
+    vq = [q for q in family() if q["frm"][0] == "sub" or (q["frm"][0] == "join" and "sub" in (q["frm"][2][0], q["frm"][3][0]))]
+    agg_sub = dict(BASE, sel=[(C("y", "a"), "d1"), (("agg", "count", C("y", "b"), INT), "d2")], frm=t("t1", "y"), grp=[C("y", "a")], agg=True)
+    d2 = [("d1", INT), ("d2", INT)]
+    for jt in ("inner", "left"):
+        vq.append(dict(BASE, sel=[(C("x1", "d1"), "c1"), (C("x1", "d2"), "c2"), (C("x2", "d2"), "c3")],
+                       frm=("join", jt, ("sub", agg_sub, "x1", d2), ("sub", agg_sub, "x2", d2), B("=", C("x1", "d2"), C("x2", "d1")))))
+        vq.append(dict(BASE, sel=[(C("x1", "d1"), "c1"), (C("x2", "d1"), "c2")], where=ISN(C("x2", "d1")) if jt == "left" else None,
+                       frm=("join", jt, ("sub", agg_sub, "x1", d2), ("sub", agg_sub, "x2", d2), B("=", C("x1", "d2"), C("x2", "d1")))))
+    inner = dict(BASE, sel=[(C("y", "a"), "d1"), (C("y", "b"), "d2")], frm=t("t1", "y"), where=ISN(C("y", "b"), True))
+    outer = dict(BASE, sel=[(C("z", "d1"), "d1"), (("agg", "sum", C("z", "d2"), INT), "d2")], frm=("sub", inner, "z", d2), grp=[C("z", "d1")], agg=True)
+    for p in (None, B(">", C("x", "d2"), K(1)), ISN(C("x", "d1"))):
+        vq.append(dict(BASE, sel=[(C("x", "d1"), "c1"), (C("x", "d2"), "c2")], frm=("sub", outer, "x", d2), where=p))
+    for k, q in enumerate(vq):
+        for db in DATA[:2]:
+            views, sql = G.sql_query_views(q)
+            out.append({"db": {tt: [list(r) for r in rows] for tt, rows in db.items()}, "q": q, "sql": sql, "pk": False,
+                        "views": views, "views_first": bool(k % 2)})
     return out
